@@ -45,7 +45,11 @@ FOCUS_LOCK = ("try_lock", "lock", "unlock", "is_locked", "release")
 LOCK3_LISTS = [["steps", "stream-abort", "steps"], ["stream-abort", "steps", "steps"], ["steps", "steps-poisoned", "steps"],
                ["steps", "steps", "steps"]]
 FOCUS = ("try_lock", "lock", "unlock", "is_locked", "_run_step_resource", "_run_steps_resource", "_stream_steps_resource", "streamer",
-         "release")
+         "release", "_save_state_resource", "_get_instance_state", "get_instance_states")
+# lists run against a server with a FileAdapter (every stepping request saves the instance state; "save" = GET /save-state)
+ADAPTER_LISTS = [["stream", "save", "steps"], ["steps", "save", "steps"], ["steps", "save", "step"], ["step", "steps", "steps"], ["step", "stream", "steps"]]
+ERROR_ENDINGS = ["steps-poisoned", "steps-nosettings", "steps-nonumber", "steps-nonjson", "steps-badnumber", "step-poisoned", "step-badjson",
+                 "stream-poisoned", "stream-abort", "stream-unstarted"]
 START, STOP, DT = 1.0, 6.0, 1.0
 
 
@@ -79,7 +83,14 @@ def run_case(case):
     from BPTK_Py import BptkServer
 
     made = []
-    app = BptkServer(__name__, bptk_factory=_factory(made))
+    adir = None
+    adapter = None
+    if case.get("adapter"):
+        import tempfile
+        from BPTK_Py import FileAdapter
+        adir = tempfile.mkdtemp(prefix="c18_", dir=".")
+        adapter = FileAdapter(False, adir)
+    app = BptkServer(__name__, bptk_factory=_factory(made), external_state_adapter=adapter)
     app.logger.disabled = True
     c0 = app.test_client()
     iid = json.loads(c0.post("/start-instance").data)["instance_uuid"]
@@ -111,6 +122,32 @@ def run_case(case):
                 resp = client.post("/%s/run-steps" % iid, json={"numberSteps": 2, "settings": {}})
             elif kind == "steps-poisoned":
                 resp = client.post("/%s/run-steps" % iid, json={"numberSteps": 2, "settings": {SM: {SCN: {"constants": 5}}}})
+            elif kind == "steps-nosettings":
+                resp = client.post("/%s/run-steps" % iid, json={"numberSteps": 2})
+            elif kind == "steps-nonumber":
+                resp = client.post("/%s/run-steps" % iid, json={"settings": {}})
+            elif kind == "steps-nonjson":
+                resp = client.post("/%s/run-steps" % iid, data="numberSteps=2")
+            elif kind == "steps-badnumber":
+                resp = client.post("/%s/run-steps" % iid, json={"numberSteps": "two", "settings": {}})
+            elif kind == "step-poisoned":
+                resp = client.post("/%s/run-step" % iid, json={"settings": {SM: {SCN: {"constants": 5}}}})
+            elif kind == "step-badjson":
+                resp = client.post("/%s/run-step" % iid, data='{"settings": ', content_type="application/json")
+            elif kind == "stream-poisoned":
+                resp = client.post("/%s/stream-steps" % iid, json={"settings": {SM: {SCN: {"constants": 5}}}})
+            elif kind == "save":
+                resp = client.get("/save-state")
+            elif kind == "stream-unstarted":
+                # the client goes away after the headers: the WSGI server closes the body iterable without ever iterating it
+                from werkzeug.test import EnvironBuilder
+                env = EnvironBuilder(path="/%s/stream-steps" % iid, method="POST").get_environ()
+                status = []
+                app_iter = app.wsgi_app(env, lambda st_, hd, exc=None: status.append(st_))
+                if hasattr(app_iter, "close"):
+                    app_iter.close()
+                results[i] = (int(status[0].split()[0]) if status else None, None, "aborted")
+                return
             elif kind == "stream-abort":
                 resp = client.post("/%s/stream-steps" % iid, buffered=False)
                 it = resp.response
@@ -175,7 +212,7 @@ def run_case(case):
                             % (step_before, step_after, total, reqs, sch.trace, [(r[0], _times(r[1]) if r[1] is not None else None) for r in results])))
     # lock released, instance usable
     if inst.is_locked():
-        ending = "abort" if aborted else ("error" if any("poisoned" in r for r in reqs) else "completion")
+        ending = "abort" if aborted else ("error" if any("-" in r for r in reqs) else "completion")
         vs.append(Violation("lock-not-released:%s:%s" % (ending, "+".join(sorted(set(reqs)))), "instance is still locked after all requests ended (%s); requests %r schedule %r statuses %r"
                             % (ending, reqs, sch.trace, [r[0] for r in results])))
     else:
@@ -187,6 +224,9 @@ def run_case(case):
             b.destroy()
         except Exception:
             pass
+    if adir:
+        import shutil
+        shutil.rmtree(adir, ignore_errors=True)
     out = {}
     for v in vs:
         out.setdefault(v.signature, v)
@@ -203,7 +243,8 @@ def _body(ctx):
         ctx.extra["schedule_points_max"] = max(ctx.extra.get("schedule_points_max", 0), info["points"])
         ctx.case({"requests": case["requests"], "schedule": ("choice-list[%d]" % len(case["choices"])) if "choices" in case else case["preempt"],
                   "points": info["points"], "switches": info["trace"][:6]}, nontrivial=info["preemptions"] >= 1,
-                 labels=["reqs:" + "+".join(case["requests"]), "preemptions:%d" % min(info["preemptions"], 3)] + (["focus-mode"] if case.get("focus") else []), key=case)
+                 labels=["reqs:" + "+".join(case["requests"]), "preemptions:%d" % min(info["preemptions"], 3)] + (["focus-mode"] if case.get("focus") else []) +
+                 (["with-adapter"] if case.get("adapter") else []), key=case)
         ctx.report(vs)
     return body
 
@@ -224,6 +265,9 @@ def plan(tier):
         for part in range(3):
             specs.append({"kind": "two", "reqs": l, "window": WINDOW if tier == "quick" else 80, "part": part, "of": 3})
     specs.append({"kind": "endings"})
+    for l in ADAPTER_LISTS:
+        for part in range(2):
+            specs.append({"kind": "adapter", "reqs": l, "part": part, "of": 2, "two": 40 if tier == "quick" else 200})
     if tier == "quick":
         # 3 preemptions over the lock protocol with the first one at point 0 (hands the start to the second request)
         for reqs in LOCK3_LISTS[:2]:
@@ -267,6 +311,31 @@ def run_shard(spec, ctx):
                     k += 1
         ctx.enum(cases(), body)
         ctx.exhaustive = True
+    elif spec["kind"] == "adapter":
+        reqs = spec["reqs"]
+
+        def cases():
+            # focus mode (lock protocol, handlers and the state snapshot): all schedules with <= 1 preemption, and all with 2
+            # preemptions among the first `two` scheduling points
+            info0, _ = run_case({"requests": reqs, "preempt": {}, "focus": True, "adapter": True})
+            P = info0["points"] + 2
+            k = 0
+            if spec["part"] == 0:
+                yield {"requests": reqs, "preempt": {}, "focus": True, "adapter": True}
+            for p1 in range(P):
+                for c1 in (1, 2):
+                    if k % spec["of"] == spec["part"]:
+                        yield {"requests": reqs, "preempt": {str(p1): c1}, "focus": True, "adapter": True}
+                    k += 1
+            W = min(P, spec["two"])
+            for p1 in range(W):
+                for p2 in range(p1 + 1, W):
+                    for cs in itertools.product((1, 2), repeat=2):
+                        if k % spec["of"] == spec["part"]:
+                            yield {"requests": reqs, "preempt": {str(p1): cs[0], str(p2): cs[1]}, "focus": True, "adapter": True}
+                        k += 1
+        ctx.enum(cases(), body)
+        ctx.exhaustive = True
     elif spec["kind"] == "lock3":
         reqs = spec["reqs"]
 
@@ -286,7 +355,7 @@ def run_shard(spec, ctx):
         ctx.exhaustive = True
     elif spec["kind"] == "endings":
         def cases():
-            for reqs in (["steps-poisoned"], ["steps-poisoned", "step"], ["stream-abort"], ["stream-abort", "step"], ["stream"], ["steps"], ["step"]):
+            for reqs in [[e] for e in ERROR_ENDINGS] + [[e, "step"] for e in ERROR_ENDINGS] + [["stream"], ["steps"], ["step"]]:
                 P = _probe(reqs) if len(reqs) > 1 else 0
                 yield {"requests": reqs, "preempt": {}}
                 for p in range(0, P + 1, 3):
@@ -294,6 +363,9 @@ def run_shard(spec, ctx):
             for pre in (4, 5, 6):
                 for reqs in (["steps"], ["stream"], ["step", "steps"]):
                     yield {"requests": reqs, "preempt": {}, "presteps": pre}
+            for ad in (True,):
+                for reqs in [[e] for e in ERROR_ENDINGS] + [["save"], ["save", "step"], ["stream"], ["steps"], ["step"]]:
+                    yield {"requests": reqs, "preempt": {}, "adapter": ad}
         ctx.enum(cases(), body)
     else:
         if spec.get("segments"):
@@ -317,7 +389,8 @@ def run_shard(spec, ctx):
                                            "choices": st.lists(st.sampled_from([0, 0, 0, 0, 0, 1, 2]), max_size=200),
                                            "presteps": st.sampled_from([0, 3, 4, 5])})
         else:
-            strat = st.fixed_dictionaries({"requests": st.sampled_from(LISTS),
+            strat = st.fixed_dictionaries({"requests": st.sampled_from(LISTS + ADAPTER_LISTS),
                                            "choices": st.lists(st.sampled_from([0, 0, 0, 0, 0, 0, 0, 0, 1, 2]), max_size=400),
-                                           "presteps": st.sampled_from([0, 0, 3, 5])})
+                                           "presteps": st.sampled_from([0, 0, 3, 5]), "adapter": st.booleans()}).filter(
+                lambda c: c["adapter"] or "save" not in c["requests"])
         ctx.hyp(strat, body, spec["n"])
